@@ -483,6 +483,12 @@ def run(ctx):
             opts = dict(method=method, link=link and method == "move", exdev=exdev)
             opts.update(window_opts(rec, rng))
             steps = derive_history(rec, rng, method)
+            rf_sub = [f["ms"] for f in rec.files if f["kind"] == "rf" and f["ms"] % 1000]
+            if ri == 0 and k == 0 and rf_sub:
+                # always once: a window whose end is a file time that is not a whole second, every file first seen through a
+                # live event (the files that exist at the start are ignored)
+                opts.update(starttime_ms=None, endtime_ms=sorted(rf_sub)[len(rf_sub) // 2], include_drf=True, include_dmd=True)
+                steps = [("start", True)] + base_events(rec, rng)       # (nothing vanishes here)
             seldesc = "%s %s selection %s" % (rec.name, method, {k2: v for k2, v in opts.items() if k2 not in ("method", "link", "exdev")})
             sc, nops = drv.run_history(digital_rf, rec, work, "%s-sel%d" % (rec.name, k), opts, steps, desc=seldesc)
             add(sc, "selection")
